@@ -259,3 +259,73 @@ Proof.
   intros G1 G2 A Hk. cbn zeta. unfold iter_post, iter_count, iter_end, iter_amount. rewrite G1, G2, A.
   rewrite cut_end. assert (E : -1 <? k = true) by (apply Z.ltb_lt; lia). rewrite E. cbn [andb]. reflexivity.
 Qed.
+
+(* ---- the default ordering on tie-free logs: same sorts, same traversals, same iterator ---- *)
+Lemma entry_eq_dec (a b : entry) : {a = b} + {a <> b}.
+Proof.
+  decide equality; try apply N.eq_dec; try apply Z.eq_dec; try apply bool_dec; apply (list_eq_dec N.eq_dec).
+Qed.
+
+Section IterLww.
+  Variable l : log.
+  Variable U : list entry.
+  Hypothesis UO : univ_ok U.
+  Hypothesis I : linv U l.
+  Hypothesis TO : times_ok l.
+  Hypothesis TF : tie_free l.
+
+  Lemma lww_diag a : P (l_entries l) a -> sort_less (log_cmp SLww) true a a = true.
+  Proof.
+    intros Pa. assert (Ta : int64_range (e_time a)) by (apply TO; apply ents_In; eauto).
+    unfold sort_less, log_cmp, raw_cmp. rewrite (OrderProofs.lww_spec N ncmp (key_of a) (key_of a)) by assumption.
+    unfold OrderProofs.lww_val. rewrite Z.eqb_refl.
+    assert (E : ncmp (sk_id (key_of a)) (sk_id (key_of a)) = 0) by (apply (OrderProofs.k_eq _ _ OrderProofs.ncmp_ord); reflexivity).
+    rewrite E. reflexivity.
+  Qed.
+
+  Lemma sort_desc_lww_hash L : Forall (P (l_entries l)) L -> sort_desc SLww L = sort_desc SHash L.
+  Proof.
+    intros HP. unfold sort_desc, sort_go.
+    apply (gosort_twin entry _ _ (P (l_entries l)) (lww_agree l TO TF) lww_diag
+             (h_irrefl l TO) (h_trans l TO) (h_total l U I TO) entry_eq_dec L HP).
+  Qed.
+
+  Lemma heads_P : Forall (P (l_entries l)) (oslice (l_heads l)).
+  Proof. rewrite Forall_forall. intros r Hr. now apply (roots_in l U I). Qed.
+
+  Lemma iter_start_lww_eq_hash o : l_sort l = SLww -> iter_start l o = iter_start (with_sort l SHash) o.
+  Proof.
+    intros SL.
+    assert (SH : sorted_heads l = sorted_heads (with_sort l SHash)).
+    { unfold sorted_heads. cbn [with_sort l_sort l_heads]. rewrite SL. now rewrite (sort_desc_lww_hash _ heads_P). }
+    unfold iter_start. rewrite SH. reflexivity.
+  Qed.
+
+  Theorem iterator_lww_eq_hash o : l_sort l = SLww -> iterator l o = iterator (with_sort l SHash) o.
+  Proof.
+    intros SL. pose proof (iter_start_lww_eq_hash o SL) as IS.
+    unfold iterator. rewrite <- IS. cbn [with_sort l_entries l_sort]. rewrite SL.
+    destruct (it_amount o) as [[|p|p]|]; try reflexivity;
+      (destruct (iter_start l o) as [st| |] eqn:S; try reflexivity;
+       unfold traverse;
+       rewrite (traverse_ext2 (l_entries l) (linv_well_keyed _ _ I) SLww SHash sort_desc_lww_hash (oslice (from_entries st)));
+       [reflexivity|];
+       rewrite Forall_forall; intros r Hr; apply (iter_start_in l U I o st S); now apply oslice_from_entries_subset in Hr).
+  Qed.
+End IterLww.
+
+(* the range theorem for every total ordering *)
+Theorem iterator_spec_total U l o st : univ_ok U -> linv U l -> times_ok l -> order_total l ->
+  it_amount o <> Some 0 -> iter_start l o = Ok st ->
+  let roots := oslice (from_entries st) in
+  exists R,
+    NoDup (okeys R) /\
+    (forall k v, In (k, v) R <-> In (k, v) (l_entries l) /\ treach (l_entries l) roots k) /\
+    StronglySorted (gt SHash) (oslice R) /\
+    iterator l o = Ok (iter_post o (oslice (cut (iter_count o) (iter_end o) 0 R)), true).
+Proof.
+  intros UO I TO [SH|[SL TF]] Ha S.
+  - exact (iterator_spec l U UO I TO SH o st Ha S).
+  - rewrite (iterator_lww_eq_hash l U I TO TF o SL). rewrite (iter_start_lww_eq_hash l U I TO TF o SL) in S.
+    exact (iterator_spec (with_sort l SHash) U UO (linv_with_sort U l SHash I) (times_ok_with_sort l SHash TO) eq_refl o st Ha S).
+Qed.
